@@ -430,6 +430,11 @@ class Interp:
             if isinstance(v, dict) and v.get("$variant") in ("Err", "None"):
                 return mk_adt("ControlFlow", "Break", {"0": v})
             return UNK
+        if "FromResidual" in nm and "from_residual" in nm:
+            v = self.deref(argv[0])
+            if isinstance(v, dict) and v.get("$variant") in ("Err", "None"):
+                return v   # `?` re-raises the residual of the same shape (error conversion is opaque and irrelevant here)
+            return UNK
         if "Clone>::clone" in nm or nm.endswith("::clone"):
             v = self.deref(argv[0])
             return clone(v)
